@@ -130,8 +130,13 @@ def handleCase (f : List String) : Except String Verdict := do
     unless vals.length == (p.filter (·.isParam)).length do throw "outside-domain: one value per parameter"
     let some io := parseObs3 impl | throw "outside-domain: observation"
     let pattern := patText p
-    let mo := serve cfg pattern path
-    let mrpm := routePatternMatch (fun _ _ => true) cfg path pattern
+    -- fiber's maxParams: the model has no bound on the number of parameters; what the real code does
+    -- with a pattern that declares more than 30 (register panics, getMatch – hence RoutePatternMatch –
+    -- matches nothing) is rendered here, outside the model, and so held to the observation
+    let np := nparams p
+    let over := np > maxParams
+    let mo : Obs := if over then { panic := true } else serve cfg pattern path
+    let mrpm := if over then some false else routePatternMatch (fun _ _ => true) cfg path pattern
     let modelObs := renderObs mo ++ ";rpm=" ++ renderRpm mrpm
     -- correspondence of the structured view with the parser: segsOf (token list) = parseRoute (text)
     -- (proved for WFPat: C03.parseRoute_patText; kept as a run-time cross-check of the transcription)
@@ -140,7 +145,8 @@ def handleCase (f : List String) : Except String Verdict := do
       | none, none => true
       | _, _ => false
     let spec := specViolation cfg p vals path io
-    let applies := completenessApplies cfg p vals path
+    -- a pattern over the limit is refused at registration: nothing is demanded, not counted as complete
+    let applies := completenessApplies cfg p vals path && !over
     -- the region of former known finding K1 (repaired in fiber): clean for the literals, not clean for
     -- the literals minus their trailing slashes; no longer exempt, only counted
     let fullConstRegion := applies && !cleanFillWith cmpOfConst (foldPat cfg p) (foldVals cfg vals)
@@ -152,6 +158,9 @@ def handleCase (f : List String) : Except String Verdict := do
                 (if applies && !greedyOnce (fun l => l) (foldPat cfg p) (foldVals cfg vals) then ["nt-greedy-iib"] else []) ++
                 (if fullConstRegion then ["nt-full-const"] else []) ++
                 (if !applies && io.disp.ran == 1 then ["nt-rpm-match"] else []) ++
+                (if np ≥ 28 then [s!"params-{np}"] else []) ++
+                (if np ≥ 28 && applies then [s!"nt-complete-params-{np}"] else []) ++
+                (if over && io.disp.panic then ["over-limit-refused"] else []) ++
                 (if structOK then [] else ["struct-mismatch"])
     pure { id := id, modelObs := if hypViolated cfg pattern then "hyp-violated:" ++ modelObs
                                  else if structOK then modelObs else "struct-mismatch:" ++ modelObs, implObs := impl,
